@@ -2,6 +2,7 @@ package main
 
 import (
 	"fmt"
+	"strconv"
 	"strings"
 )
 
@@ -24,9 +25,19 @@ func wmask(w int) uint64 {
 	}
 	return (uint64(1) << uint(w)) - 1
 }
+var bvCache [65][2048]string
+
 func bv(c uint64, w int) T {
 	c &= wmask(w)
-	return T{s: fmt.Sprintf("(_ bv%d %d)", c, w), w: w, isC: true, c: c}
+	if c < 2048 && w <= 64 {
+		s := bvCache[w][c]
+		if s == "" {
+			s = "(_ bv" + strconv.FormatUint(c, 10) + " " + strconv.Itoa(w) + ")"
+			bvCache[w][c] = s
+		}
+		return T{s: s, w: w, isC: true, c: c}
+	}
+	return T{s: "(_ bv" + strconv.FormatUint(c, 10) + " " + strconv.Itoa(w) + ")", w: w, isC: true, c: c}
 }
 func tbool(b bool) T {
 	if b {
